@@ -1,6 +1,7 @@
 import GB.Base.Proto
 import GB.C05.Spec
 import GB.C05.Pipeline
+import GB.C05.Ext
 /-
   C05 driver: trace validation of one resolver run (one or more polls against one scripted target).
 
@@ -555,8 +556,90 @@ def handlePipe (inF outF : List String) : String :=
         | .error e => e ++ s!" [at {ev}]"
   go outF (Pipe.init A.length)
 
+
+/-! ### op `nf`: protodesc.NewFiles + bridgedesc.ParseTarget on an extended descriptor set
+
+  input :  nf W=<svc,…> X=<xfile>…
+             xfile = name|pkg|dep,…|msg,…|svc;…|syntax|edition|pub idx,…|weak idx,…|required msg,…
+             rule (inside method) = kind@pattern@body@resp[@nested%nested…]   nested = kind$pattern$body$resp
+  output:  err | ok:<file,…>#<svc;…>      (what reflection.parseFileDescriptors returned) -/
+
+def parseXRule (s : String) : Option (Rule × List Rule) :=
+  match s.splitOn "@" with
+  | [k, p, b, r] => (parseRule s).map fun x => (x, [])
+  | [k, p, b, r, nested] =>
+    let ns := (splitL "%" nested).map fun n => parseRule ("@".intercalate (n.splitOn "$"))
+    if ns.any Option.isNone then none else
+    (parseRule ("@".intercalate [k, p, b, r])).map fun x => (x, ns.filterMap id)
+  | _ => none
+
+def parseXMethod (s : String) : Option DMethod :=
+  match s.splitOn "~" with
+  | [n, i, o, fl, rules] =>
+    let rs := (splitL "^" rules).map parseXRule
+    if rs.any Option.isNone then none else
+    let http : Option HttpRule := match rs.filterMap id with
+      | [] => none
+      | p :: more => some (XHttp.flatten { primary := p.1, additional := more })
+    match fl.toList with
+    | [c, sv] => some { name := tok n, input := tok i, output := tok o,
+                        clientStreaming := c == '1', serverStreaming := sv == '1', http := http }
+    | _ => none
+  | _ => none
+
+def parseXService (s : String) : Option DService :=
+  match s.splitOn "!" with
+  | [] => none
+  | n :: ms =>
+    let ms' := ms.map parseXMethod
+    if ms'.any Option.isNone then none else some { name := tok n, methods := ms'.filterMap id }
+
+def parseNats (s : String) : Option (List Nat) :=
+  let l := (splitL "," s).map String.toNat?
+  if l.any Option.isNone then none else some (l.filterMap id)
+
+def parseXFile (s : String) : Option XFile :=
+  match s.splitOn "|" with
+  | [n, pkg, deps, msgs, svcs, syn, ed, pub, weak, req] =>
+    let ss := (splitL ";" svcs).map parseXService
+    if ss.any Option.isNone then none else
+    match ed.toNat?, parseNats pub, parseNats weak with
+    | some e, some pb, some wk =>
+      some { file := { name := tok n, deps := (splitL "," deps).map tok, messages := (splitL "," msgs).map tok,
+                       services := ss.filterMap id },
+             pkg := tok pkg, syn := tok syn, edition := e, pub := pb, weak := wk,
+             required := (splitL "," req).map tok }
+    | _, _, _ => none
+  | _ => none
+
+def nfBranch (xs : List XFile) : String :=
+  let feats := (if xs.any (fun x => !x.pub.isEmpty) then ["pub"] else []) ++
+    (if xs.any (fun x => !x.weak.isEmpty) then ["weak"] else []) ++
+    (if xs.any (fun x => x.syn == sEditions) then ["ed"] else []) ++
+    (if xs.any (fun x => !x.required.isEmpty) then ["req"] else [])
+  if feats.isEmpty then "plain" else "+".intercalate feats
+
+def handleNf (inF outF : List String) : String :=
+  let wanted := (inF.filterMap fun f => if f.startsWith "W=" then some ((splitL "," (f.drop 2).toString).map tok) else none).flatten
+  let xsO := inF.filterMap fun f => if f.startsWith "X=" then some (parseXFile (f.drop 2).toString) else none
+  if xsO.any Option.isNone then "BAD nf file" else
+  let xs := xsO.filterMap id
+  let model := match parseFileDescriptorsX xs wanted with
+    | .error _ => "err"
+    | .ok t => s!"ok:{showFileNames (fileNames t.files)}#{showServices t.services}"
+  match outF with
+  | [impl] =>
+    let br := (if model == "err" then "nf-rej-" else "nf-acc-") ++ nfBranch xs
+    if impl == model then "OK" ++ (if xs.length ≥ 2 then " nt" else "") ++ s!" b={br}"
+    else if impl.startsWith "PANIC" then "VIOL panic"
+    else if impl.startsWith "ok:" && model.startsWith "ok:" then
+      s!"VIOL the delivered contract is not the descriptor set's: model={model}"
+    else s!"DIFF model={model}"
+  | _ => "BAD nf output"
+
 def handle : Handler := fun inF outF =>
   if inF.head? == some "pipe" then handlePipe inF outF else
+  if inF.head? == some "nf" then handleNf inF outF else
   match parseInput inF with
   | .error e => s!"BAD input {e}"
   | .ok inp =>
